@@ -247,12 +247,27 @@ def _pinned_opt():
             {"N": 2, "W": 3, "seed": 3, "samples": 4, "log_std": [6.0, 6.0], "duplicate": True, "constant": [1], "lam": 1.0, "biased": False}]
 
 
+def _wide_strategy():
+    return gen.e2e_config(front=("single", "single", "joint"), max_N=6, max_W=10, max_K=3, t_range=(80, 200), limits=(1, 2, 3),
+                          betas=(1.0, 10.0, 100.0), scales=True, lam_forms=("scalar",), beta_forms=("scalar",))
+
+
+def _pinned_wide():
+    base = {"front": "single", "N": 4, "W": 8, "K": 2, "lengths": [150], "regimes": 2, "mean_spread": 2.0, "data_seed": 3,
+            "np_seed": 3, "py_seed": 3, "beta": 10.0, "beta_form": "scalar", "lam": 0.11, "lam_form": "scalar", "limit": 2,
+            "m": 4, "biased": False, "eps": 0, "num_processors": 1, "boundary_regime_flip": False}
+    return [dict(base, sensor_scales=[1e6] * 4), dict(base, N=6, W=5, lengths=[160], sensor_scales=[1e6] * 6, data_seed=6),
+            dict(base, N=6, W=10, lengths=[200], sensor_scales=[1e5, 1e6, 1e5, 1e6, 1e5, 1e6], data_seed=5)]
+
+
 SUBCHECKS = [
     SubCheck(name="optimiser_output_is_pd_precision", strategy=opt_case, execute=execute_opt, pinned=_pinned_opt,
              budget={"quick": 480, "thorough": 16000}, shards={"quick": 16, "thorough": 16}, modes=["jit"],
              min_nontrivial_fraction=0.3),
     SubCheck(name="covariance_floor_semantics", strategy=floor_case, execute=execute_floor,
              budget={"quick": 96, "thorough": 3000}, shards={"quick": 8, "thorough": 8}, modes=["jit"]),
+    SubCheck(name="end_to_end_wide_windows_large_scales", strategy=_wide_strategy, execute=execute_e2e, pinned=_pinned_wide,
+             budget={"quick": 32, "thorough": 800}, shards={"quick": 16, "thorough": 16}, modes={"quick": ["nojit"], "thorough": ["nojit"]}),
     SubCheck(name="end_to_end_scales_and_degenerate_data", strategy=_e2e_strategy, execute=execute_e2e,
              budget={"quick": 128, "thorough": 3000}, shards={"quick": 16, "thorough": 8}, modes=E2E_MODES),
 ]
